@@ -93,7 +93,8 @@ Inductive opk :=
 | WriteInit (w b : N) (v : list N)     (* write_initial_attributions: blind overwrite *)
 | BlobTrunc (w b s : N)                (* fs::write of blobs/<s>, first half: the file is truncated *)
 | BlobFill (w b s : N) (c : list N)    (* ... second half: the content is there *)
-| BlobGet (w b s : N).                 (* get_file_version: only read (the identity as an update) *)
+| BlobGet (w b s : N)                  (* get_file_version: only read (the identity as an update) *)
+| ResetCp (w b : N).                   (* reset_working_log: checkpoints.jsonl emptied (blind) *)
 
 Definition obj_of (k : opk) : obj :=
   match k with
@@ -105,6 +106,7 @@ Definition obj_of (k : opk) : obj :=
   | BlobTrunc w b s => OBlob w b s
   | BlobFill w b s _ => OBlob w b s
   | BlobGet w b s => OBlob w b s
+  | ResetCp w b => OCp w b
   end.
 
 Fixpoint upsert (k v : N) (l : list (N * N)) : list (N * N) :=
@@ -124,6 +126,7 @@ Definition apply_op (k : opk) (read : val) : val :=
   | BlobTrunc _ _ _ => VBlob []
   | BlobFill _ _ _ c => VBlob c
   | BlobGet _ _ _ => read
+  | ResetCp _ _ => VCp []
   end.
 
 (* ------------------------------------------------------------------ programs and traces *)
@@ -298,13 +301,20 @@ Definition checkpoint_run_full (w b : N) (x : cpt) (tracked : list (N * list N))
   ++ map (fun s => SRead (BlobGet w b s)) prev ++ append_checkpoint_prog w b x.
 
 (* post-command hook of `git commit` in worktree w: parent b, new commit c, rewrite-log event e,
-   note n, uncommitted AI claims v carried over to the new base *)
+   note n, uncommitted AI claims v carried over to the new base.  It runs AFTER git has moved HEAD
+   to c: other actors may already checkpoint against c (OCp w c) while it runs.  What it does to the
+   working log of the NEW commit is read from the source (Gen/GenConc.v): on the unchanged tree only
+   write_initial_attributions (a blind write of INITIAL), no reset, no delete *)
+Definition seed_new_log (w c : N) (v : list N) : program :=
+  (if post_commit_resets_new_log then [SAtomic (ResetCp w c)] else [])
+  ++ [SAtomic (WriteInit w c v)].
+
 Definition commit_prog (w b c e n : N) (v : list N) : program :=
   append_event_prog w e ++ [SPeek (ORw w)]
   ++ rmw post_commit_refresh_locked (RefreshCp w b)
   ++ [SPeek (OCp w b); SPeek (OInit w b)]
   ++ notes_add_prog c n
-  ++ [SAtomic (WriteInit w c v)].
+  ++ seed_new_log w c v.
 
 (* a history rewrite (rebase, amend, cherry-pick ...): one event, one note per rewritten commit *)
 Definition rewrite_prog (w e : N) (notes : list (N * N)) : program :=
@@ -449,3 +459,8 @@ Definition known_iff_lost (o : obj) (progs : list program) (sched : list nat) : 
   let tr := trace_of progs sched in
   Bool.eqb (negb (stale_free tr))
            (negb (match lost o empty_store (run progs sched empty_store) tr with [] => true | _ => false end)).
+
+(* what post_commit would be with a reset of the new commit's working log before seeding it *)
+Definition wit_reset_progs : list program :=
+  [[SAtomic (ResetCp 0 101); SAtomic (WriteInit 0 101 [3])]; checkpoint_run 0 101 wit_c2].
+Definition sched_ckpt_then_seed : list nat := [1; 1; 1; 1; 0; 0]%nat.
